@@ -102,7 +102,7 @@ def uTerm (m : Mat α) (s L : α) : α := (HasPi.pi / 2.0) * ((ratio L s - 1.0) 
 /-- `SeegerBeste._middle_term` (= `_middle_term_secondary`):
 `2/u² · ln(1/cos u) + (σ/L)² − σ/L` with the three `np.divide(…, where=…)` fall-backs.
 
-The logarithm is written in the form of the REPAIRED code (tools/fixes/C06-seegerbeste-middle-term-small-u.diff):
+The logarithm is written in the form of the REPAIRED code (/repo commit de286fc):
 `ln(1/cos u) = ln(1 + 2 sin²(u/2) / cos u) = log1p(2 sin²(u/2) / cos u)` where `cos u > 0`, fall-back `log1p(0) = 0`
 elsewhere - the same fall-back value as `ln(1)` of the original form `np.log(np.divide(1, cos u, out=ones, where=cos u > 0))`.
 Over ℝ both forms are the same function (`Proofs/Lemmas/Notch.lean: middleTerm_eq` restates it with `Real.log (1 / cos u)`);
@@ -200,7 +200,7 @@ def lookupFrom (tbl : List (List α × List α)) : Nat → List α → Option (L
     | some v, some vs => some (v :: vs)
     | _, _ => none
 
-/-- Look-up on a per-point table of `p` points, REPAIRED behaviour (`tools/fixes/C07-binned-per-point-class.diff`):
+/-- Look-up on a per-point table of `p` points, REPAIRED behaviour (/repo commit 3047e0d):
 the loads are paired with the points by position (the index labels of the Series are not used); every point
 selects the class in its own load column and is checked against its own range; `none` (`ValueError`) when a point
 is out of its range or when the Series does not hold exactly one load per point. -/
